@@ -169,7 +169,13 @@ class Check:
             for name in os.listdir(REPLAY_DIR):
                 if name.startswith(self.prop_id + '-'):
                     os.remove(os.path.join(REPLAY_DIR, name))
-        if self.errors:
+        if self.errors and violations:
+            # part of the analysis could not be completed, but the rule instances reported
+            # below were decided: the violations stand
+            for text in self.errors:
+                print('note: analysis incomplete (%s); the violations found stand' % text,
+                      file=out)
+        if self.errors and not violations:
             for text in self.errors:
                 print('ANALYSIS-ERROR property=%s %s' % (self.prop_id, text), file=out)
             code = 2
